@@ -129,8 +129,24 @@ def fold_line(line, width):
     return out
 
 
+DORMANT_SHIFT = 7200       # offset of the dormant component: std + 2 h
+DORMANT_NAME = "DORM"
+
+
+def dormant_component(spec):
+    """A second STANDARD component whose first onset lies three centuries
+    ahead: it never applies to a probed instant, but it is a STANDARD
+    component, so 'the first standard component' (before the first onset)
+    depends on where it stands in the file."""
+    off = spec["stdoff"] + DORMANT_SHIFT
+    return ["BEGIN:STANDARD", "DTSTART:%04d0101T000000" % (Y0 + 300),
+            "TZOFFSETFROM:" + fmt_offset(spec["stdoff"]),
+            "TZOFFSETTO:" + fmt_offset(off), "TZNAME:" + DORMANT_NAME,
+            "RRULE:FREQ=YEARLY;BYMONTH=1;BYMONTHDAY=1", "END:STANDARD"]
+
+
 def vtimezone(spec, tzid, form, daylight_first, nyears, fold_width=None,
-              drop=None, extra=None):
+              drop=None, extra=None, dormant=None):
     """Lines of one VTIMEZONE. form: 'rrule' | 'rdate'.
     drop: name of a mandatory line to leave out (malformed variants)."""
     def comp(kind):
@@ -167,8 +183,12 @@ def vtimezone(spec, tzid, form, daylight_first, nyears, fold_width=None,
         lines.append("TZID:" + tzid)
     order = ["DAYLIGHT", "STANDARD"] if daylight_first else \
         ["STANDARD", "DAYLIGHT"]
+    if dormant == "before":
+        lines += dormant_component(spec)
     for k in order:
         lines += comp(k)
+    if dormant == "after":
+        lines += dormant_component(spec)
     if extra == "unknown_component":
         lines += ["BEGIN:WHATEVER", "END:WHATEVER"]
     if extra == "unclosed_component":
@@ -252,6 +272,7 @@ def generate(cls, rng):
               daylight_first=rng.random() < 0.5,
               fold_width=rng.choice([None, None, 30, 75]),
               multi=rng.random() < 0.4, other=other, other_form=other_form,
+              dormant=rng.choice([None, None, "after", "before"]),
               source=rng.choice(["stringio", "stringio", "path", "crlf"]))
     if cls == "hist":
         pool = [gen_query(rng, nyears) for _ in range(rng.choice([3, 12, 14,
@@ -315,7 +336,9 @@ def build_text(sc):
                      ("Zone/Two", sc["other"], sc["other_form"]))
     for tzid, spec, form in zones:
         lines += vtimezone(spec, tzid, form, sc["daylight_first"],
-                           sc["nyears"], sc.get("fold_width"))
+                           sc["nyears"], sc.get("fold_width"),
+                           dormant=sc.get("dormant")
+                           if tzid == "Zone/One" else None)
     lines.append("END:VCALENDAR")
     sep = "\r\n" if sc.get("source") == "crlf" else "\n"
     return sep.join(lines) + sep
@@ -450,6 +473,10 @@ class ZoneUnderTest(object):
             self.ctx.probe("before_first_onset")
             if mode != "utc":
                 return None
+            if self.sc.get("dormant") == "before":
+                # the first STANDARD component in the file is the dormant one
+                self.ctx.probe("before_first_onset.dormant_first")
+                return (spec["stdoff"] + DORMANT_SHIFT, DORMANT_NAME, 0)
             return (spec["stdoff"], spec["std"], 0)
         if not self.judged_by_model(ts):
             return None
@@ -680,7 +707,8 @@ def execute_bad(scenario, ctx):
 
 def simplify(cls, scenario):
     for k, v in (("fold_width", None), ("multi", False),
-                 ("source", "stringio"), ("daylight_first", False)):
+                 ("source", "stringio"), ("daylight_first", False),
+                 ("dormant", None)):
         if scenario.get(k) not in (v, None) or \
                 (k in scenario and scenario[k] and v is False):
             c = _copy.deepcopy(scenario)
